@@ -252,7 +252,8 @@ class C20(Prop):
     HARNESS = "c20"
     THEOREMS = ["C20_bin_index_spec", "C20_per_base", "C20_bins", "C20_bins_nan_free", "C20_oob",
                 "C20_zoom_bins", "C20_zoom_step_function", "C20_zoom_missing", "C20_zoom_nan_free", "C20_zoom_oob",
-                "C20_fetch_clamp", "C20_oob_layout"]
+                "C20_fetch_clamp", "C20_oob_layout",
+                "C20_sums_exact_in_domain", "C20_bin_mean_ieee", "C20_entry_sums_exact_in_domain"]
     RULE = ("one case = one chromosome (length, value/entry layout) with a batch of queries (s, e, bins, statistic, missing, oob, "
             "reader hands over touching items or not).  Exhaustive block: every layout of <= 3 values (disjoint) / <= 3 entries "
             "(any overlap) on chromosomes of <= 5 bases (quick; <= 6 thorough) x every range [s,e) from 2 below 0 to 2 past the end x "
@@ -353,7 +354,7 @@ class C20(Prop):
                 items = [list(x) for x in sorted((lambda a: (a, rng.randint(a + 1, length)))(rng.randrange(length)) for _ in range(3))]
             yield self.case(kind, length, items, list(all_queries(length, rng, both if kind else [0], 3, 3))), ["wig" if kind == 0 else "bed", "allqueries", f"len={length}"]
         # 5. megabase ranges with many bins (bigWig, binned only): bin edges are bin * span / bins, a product beyond 2^31
-        for _ in range(3 if quick else 30):
+        for _ in range(1 if quick else 30):
             L = rng.choice([3000000, 5000011])      # the oracle recomputes per base: keep it in the megabase range
             starts = sorted(rng.sample(range(0, L - 2000), 3))
             items = []; last = 0
@@ -361,7 +362,7 @@ class C20(Prop):
                 st = max(st, last); en = min(L, st + rng.choice([1, 100, 1000])); items.append([st, en, rng.choice(VALS8)]); last = en
             items.append([max(last, L - 500), L, rng.choice(VALS8)])
             qs = []
-            for _q in range(6):
+            for _q in range(3 if quick else 6):
                 s0 = rng.choice([0, 0, -5, 1000]); e0 = rng.choice([L, L, L + 7, L - 1000])
                 m, o = rng.choice(FILLS)
                 qs.append([s0, e0, rng.choice([1000, 997, 713, 10]), rng.randrange(3), m, o, 0])
